@@ -78,4 +78,55 @@ example : (inject triCfg (reached triCfg 0 []) ⟨1, true, [⟨1, 1, true⟩]⟩
   decide +kernel
 example : HonestPath triCfg 0 1 := .hop (i := 0) (.origin rfl) (by decide) rfl
 
+/-! ### the peer table may change while an item is processed -/
+
+theorem fanout_is_fanoutAt (c : Cfg) (i : Node) (es : List Entry) : fanout c i es = fanoutAt (c.peers i) i es := rfl
+
+/-- what a node passes on: only entries that verify (its own included) - a forged entry is not relayed -/
+theorem forwarded_entries_all_verify (i : Node) (es : List Entry) (e : Entry) (he : e ∈ forwardEntries i es) :
+    e.signer = e.addr ∧ e.forThis = true := by
+  unfold forwardEntries at he
+  rcases List.mem_append.mp he with h | h
+  · have := (List.mem_filter.mp h).2
+    simpa using this
+  · simp only [List.mem_singleton] at h; subst h; exact ⟨rfl, rfl⟩
+
+theorem verified_forwardEntries (i : Node) (es : List Entry) (p : Node) :
+    p ∈ verified (forwardEntries i es) ↔ p ∈ verified es ∨ p = i := by
+  unfold verified forwardEntries ownEntry
+  simp only [List.filter_append, List.filter_filter, Bool.and_self, List.map_append, List.mem_append, List.mem_map,
+    List.mem_filter]
+  constructor
+  · rintro (⟨e, he, rfl⟩ | ⟨e, he, rfl⟩)
+    · exact Or.inl ⟨e, he, rfl⟩
+    · simp at he; exact Or.inr (by rw [he.1])
+  · rintro (⟨e, he, rfl⟩ | rfl)
+    · exact Or.inl ⟨e, he, rfl⟩
+    · exact Or.inr ⟨⟨p, p, true⟩, by simp, rfl⟩
+
+/-- **Whatever the peer table holds when the fan-out runs** - also a peer that joined after the list was
+verified - a peer is left out only if the message carries an entry that verifies for it (or it is the node
+itself); an entry naming it that is unsigned, signed by another key or for another item changes nothing. -/
+theorem peer_table_change_cannot_suppress (peersNow : List Node) (i : Node) (es : List Entry) (p : Node)
+    (hp : p ∈ peersNow) (hi : p ≠ i) (hv : p ∉ verified es) : ∃ m ∈ fanoutAt peersNow i es, m.dst = p := by
+  unfold fanoutAt
+  refine ⟨⟨p, true, forwardEntries i es⟩, ?_, rfl⟩
+  simp only [List.mem_map, List.mem_filter]
+  refine ⟨p, ⟨hp, ?_⟩, rfl⟩
+  have : p ∉ verified (forwardEntries i es) := by
+    rw [verified_forwardEntries]; exact fun h => h.elim hv hi
+  simpa using this
+
+/-- and what it sends them carries verified entries only -/
+theorem fanoutAt_entries_verify (peersNow : List Node) (i : Node) (es : List Entry) (m : Msg) (hm : m ∈ fanoutAt peersNow i es)
+    (e : Entry) (he : e ∈ m.entries) : e.signer = e.addr ∧ e.forThis = true := by
+  unfold fanoutAt at hm
+  simp only [List.mem_map, List.mem_filter] at hm
+  obtain ⟨p, _, rfl⟩ := hm
+  exact forwarded_entries_all_verify i es e he
+
+/-- Non-vacuity: the relay (1) lists itself and a forged entry for node 3 (own signature); node 3 has become a
+peer of node 2 by the time it fans out: 3 gets the item, with the relay's and node 2's entries only. -/
+example : (fanoutAt [1, 3] 2 [⟨1, 1, true⟩, ⟨3, 1, true⟩]) = [⟨3, true, [⟨1, 1, true⟩, ⟨2, 2, true⟩]⟩] := by decide
+
 end Props.C12
